@@ -184,6 +184,12 @@ def identity_case(draw):
     alts = [R.render(draw(G.expr_of_dim(dim))) for _ in range(2)]
     first = ["r", draw(st.sampled_from(["to", "abse", "rele", "rebase"])), None]
     first[2] = {"to": alts[0], "abse": 0.5, "rele": 5.0, "rebase": None}[first[1]]
+    if draw(st.integers(0, 3)) == 0:
+        # the identity exponent: q**1 / np.power(q, 1.0) is still a new quantity
+        if first[1] == "to":
+            first = ["r", "abse", 0.5]
+        return {"kind": "unary", "fn": draw(st.sampled_from(["pow", "power"])), "a": a, "arg": draw(st.sampled_from([1, 1.0])),
+                "follow": [first] + draw(follow_ups(alts, [])), "alts": alts}
     return {"kind": "binary", "cls": "number", "op": op, "a": a,
             "b": {"x": num, "u": None, "e": None, "dec": False, "plain": True}, "swap": swap,
             "follow": [first] + draw(follow_ups(alts, alts))}
